@@ -9,7 +9,10 @@ absolute path without prefix started in a submodule's private tree is looked up 
 `Denotes`, `wfKeys`/`WFForest`, `NamesNoChild`, `Grown`).
 
 Hypotheses and where they come from
-* `WFForest f`: tree ids are not repeated (`toEntry` files a (sub)module's entry in its cache only
+* `WFForest f` is a hypothesis here; Props/C17Bridge.lean derives it for the forest of every
+  error-free `processAll` (`wfForest_processAll`) from the input predicate `NamesPlain` (the third
+  item below) and restates the round trips for `processAll` (`find_abs_roundtrip_processAll`,
+  `find_rel_roundtrip_processAll`, …).  Its parts: tree ids are not repeated (`toEntry` files a (sub)module's entry in its cache only
   when the cache has none) and every tree satisfies `wfKeys`:
   - sibling names differ: `Entry.add` / `Entry.merge` refuse a second child of the same name
     (Model/Entry.lean), `wrapCases` and `removeAt` keep names; in Go `Dir` is a map;
@@ -18,7 +21,8 @@ Hypotheses and where they come from
     itself as target (`cannotHaveChildren` includes `isRpc`; Go: repair 049247d of the former limit
     D17-L2 — `augment "/m:r"` used to file nodes in the rpc's `Dir`, where no path reaches them;
     runner case `augment-into-rpc-rejected`);
-  - child names are spellable (`goodName`: not empty, not `.`/`..`, no `/`, no `:`): NOT guaranteed —
+  - child names are spellable (`goodName`: not empty, not `.`/`..`, no `/`, no `:`): NOT guaranteed
+    by the code (in the bridge: the hypothesis `NamesPlain` on the loaded statements) —
     goyang never checks that a node name is a YANG identifier, so `leaf "a/b"`, `container ".."`,
     `leaf "p:x"` are accepted and cannot be named by any path: documented limit L1 (runner
     witnesses `name-with-slash`, `name-dotdot`, `name-with-colon`, replayed on the Go code on every
